@@ -29,16 +29,16 @@ func leanStr(s string) string {
 }
 
 type entry struct {
-	name      string
-	tests     []string
-	group     string
-	class     string
-	memoized  bool
-	required  bool
-	synthetic bool
+	name        string
+	tests       []string
+	group       string
+	class       string
+	memoized    bool
+	required    bool
+	synthetic   bool
 	mapKeyCheck bool
-	flows     map[string]string // flow name -> symbolic source
-	opaque    []string          // statements of mutate that were not recognised
+	flows       map[string]string // flow name -> symbolic source
+	opaque      []string          // statements of mutate that were not recognised
 }
 
 // predicate name -> Lean boolean expression over PredCtx `c` (or "" if only bound by name)
@@ -58,24 +58,24 @@ func parseFile(path string) *ast.File {
 func transPred(e ast.Expr) string {
 	s := src(e)
 	m := map[string]string{
-		"!a.isNil":                      "!c.isNil",
-		"a.t.Kind() != reflect.Func":    "!c.kindFunc",
-		"a.t.Kind() == reflect.Func":    "c.kindFunc",
-		"a.cc.isLast":                   "c.isLast",
-		"!a.cc.isLast":                  "!c.isLast",
-		"a.cc.inputsAreStatic":          "c.inputsAreStatic",
-		"!a.fm.mustCache":               "!c.mustCache",
-		"!a.fm.memoize":                 "!c.memoize",
-		"a.fm.memoize":                  "c.memoize",
-		"a.fm.cacheable":                "c.cacheable",
-		"a.fm.singleton":                "c.singleton",
-		"!a.fm.reorder":                 "!c.reorder",
-		"!a.fm.singleton":               "!c.singleton",
-		"!a.fm.notCacheable":            "!c.notCacheable",
+		"!a.isNil":                             "!c.isNil",
+		"a.t.Kind() != reflect.Func":           "!c.kindFunc",
+		"a.t.Kind() == reflect.Func":           "c.kindFunc",
+		"a.cc.isLast":                          "c.isLast",
+		"!a.cc.isLast":                         "!c.isLast",
+		"a.cc.inputsAreStatic":                 "c.inputsAreStatic",
+		"!a.fm.mustCache":                      "!c.mustCache",
+		"!a.fm.memoize":                        "!c.memoize",
+		"a.fm.memoize":                         "c.memoize",
+		"a.fm.cacheable":                       "c.cacheable",
+		"a.fm.singleton":                       "c.singleton",
+		"!a.fm.reorder":                        "!c.reorder",
+		"!a.fm.singleton":                      "!c.singleton",
+		"!a.fm.notCacheable":                   "!c.notCacheable",
 		"len(stripUnused(typesOut(a.t))) != 0": "c.hasOutputs",
-		"mappable(typesIn(a.t)...)":     "c.mappableInputs",
-		"isWrapper(a.t, a.fm.fn)":       "c.isWrapper",
-		"!isFuncPointer.test(a)":        "!c.isFuncPointer",
+		"mappable(typesIn(a.t)...)":            "c.mappableInputs",
+		"isWrapper(a.t, a.fm.fn)":              "c.isWrapper",
+		"!isFuncPointer.test(a)":               "!c.isFuncPointer",
 	}
 	if v, ok := m[s]; ok {
 		return v
@@ -102,9 +102,16 @@ func collectPredicates(f *ast.File) {
 				predMsg[name] = strings.Trim(lit.Value, "\"")
 			}
 			expr := ""
-			if fl, ok := call.Args[1].(*ast.FuncLit); ok && len(fl.Body.List) == 1 {
-				if ret, ok := fl.Body.List[0].(*ast.ReturnStmt); ok && len(ret.Results) == 1 {
-					expr = transPred(ret.Results[0])
+			if fl, ok := call.Args[1].(*ast.FuncLit); ok {
+				predBodyHash[name] = hashOf(fl.Body)
+				if len(fl.Body.List) == 1 {
+					if ret, ok := fl.Body.List[0].(*ast.ReturnStmt); ok && len(ret.Results) == 1 {
+						expr = transPred(ret.Results[0])
+						if expr == "" {
+							// a one-expression body the translator does not know: NOT silently bound by name
+							predUnknownBody[name] = src(ret.Results[0])
+						}
+					}
 				}
 			}
 			predExpr[name] = expr
@@ -116,17 +123,17 @@ func collectPredicates(f *ast.File) {
 func flowSource(e ast.Expr) string {
 	s := src(e)
 	m := map[string]string{
-		"toTypeCodes(typesIn(a.t))":                             "typesIn",
-		"toTypeCodes(typesOut(a.t))":                            "typesOut",
-		"toTypeCodes(typesIn(a.t.Elem()))":                      "typesIn",
-		"toTypeCodes(typesOut(a.t.Elem()))":                     "typesOut",
-		"toTypeCodes(remapTerminalError(typesOut(a.t)))":        "remapTE",
-		"toTypeCodes(redactTerminalError(typesOut(a.t)))":       "redactTE",
-		"toTypeCodes([]reflect.Type{errorType})":                "errorOnly",
-		"toTypeCodes([]reflect.Type{a.t.(reflect.Type)})":       "selfType",
-		"toTypeCodes(in)":                                       "wrapperIn",
-		"toTypeCodes(typesIn(inner))":                           "innerIn",
-		"toTypeCodes(typesOut(inner))":                          "innerOut",
+		"toTypeCodes(typesIn(a.t))":                       "typesIn",
+		"toTypeCodes(typesOut(a.t))":                      "typesOut",
+		"toTypeCodes(typesIn(a.t.Elem()))":                "typesIn",
+		"toTypeCodes(typesOut(a.t.Elem()))":               "typesOut",
+		"toTypeCodes(remapTerminalError(typesOut(a.t)))":  "remapTE",
+		"toTypeCodes(redactTerminalError(typesOut(a.t)))": "redactTE",
+		"toTypeCodes([]reflect.Type{errorType})":          "errorOnly",
+		"toTypeCodes([]reflect.Type{a.t.(reflect.Type)})": "selfType",
+		"toTypeCodes(in)":                                 "wrapperIn",
+		"toTypeCodes(typesIn(inner))":                     "innerIn",
+		"toTypeCodes(typesOut(inner))":                    "innerOut",
 	}
 	if v, ok := m[s]; ok {
 		return v
@@ -343,6 +350,43 @@ func main() {
 	w.WriteString("\nstructure Entry where\n  name : String\n  tests : List Pred\n  group : GroupT\n  cls : ClassT\n  memoized : Bool\n  required : Bool\n  mapKeyCheck : Bool\n  flows : List (FlowT × FlowSrc)\n  unknown : List String\nderiving Repr\n\n")
 	writeRegistry(&w, "handlerRegistry", handler)
 	writeRegistry(&w, "invokeRegistry", invoke)
+
+	// what is modelled by hand: pinned source texts
+	{
+		cur := currentPins(repo)
+		if len(os.Args) > 3 && os.Args[3] == "-print-pins" {
+			keys := make([]string, 0, len(cur))
+			for k := range cur {
+				keys = append(keys, k)
+			}
+			sort.Strings(keys)
+			for _, k := range keys {
+				fmt.Printf("\t%q: %q,\n", k, cur[k])
+			}
+		}
+		var changed []string
+		keys := make([]string, 0, len(expectedPins))
+		for k := range expectedPins {
+			keys = append(keys, k)
+		}
+		sort.Strings(keys)
+		for _, k := range keys {
+			if cur[k] != expectedPins[k] {
+				changed = append(changed, k)
+			}
+		}
+		unk := make([]string, 0, len(predUnknownBody))
+		for k := range predUnknownBody {
+			unk = append(unk, k)
+		}
+		sort.Strings(unk)
+		for _, k := range unk {
+			if _, pinned := expectedPins["predicate:"+k]; !pinned {
+				changed = append(changed, "predicate-body:"+k+": "+predUnknownBody[k])
+			}
+		}
+		fmt.Fprintf(&w, "/-- hand-modelled predicates / helper functions whose Go source is no longer the text the model was written against -/\ndef modelledByHandChanged : List String := [%s]\n\n", quoteAll(changed))
+	}
 
 	// G4: enum orders
 	fmt.Fprintf(&w, "def classOrder : List String := [%s]\n", quoteAll(constOrder(tyf, "classType")))
